@@ -433,6 +433,17 @@ func (e *env) opBuy(name string, buyer []byte, expireSec int64) *nnsOp {
 		}}
 }
 
+// opKeepAgain: the registrar transfers a name it owns to itself, passing its own address as a Buffer: a transfer to
+// the present owner, whatever the item type of the argument (seeded change C10-8: credit before debit, which only
+// shows when the contract takes owner and receiver for two parties although the bytes are the same).
+func (e *env) opKeepAgain(name string) *nnsOp {
+	tr := e.opTransfer(e.registrar, name)
+	return &nnsOp{method: "keepAgain", target: &e.registrarH, desc: name + " from the registrar to itself (receiver passed as a Buffer)", args: []any{e.nns, name},
+		predict: func(now int64, _ wits) (string, string, func(), []string) {
+			return tr.predict(now, wits{accounts: map[string]bool{hex.EncodeToString(e.registrar): true}, desc: "registrar"})
+		}}
+}
+
 func (e *env) opRegisterTLD(name string, expireSec int64) *nnsOp {
 	m := e.m
 	return &nnsOp{method: "registerTLD", desc: name, args: []any{name, "ops@x.io", int64(3600), int64(600), expireSec, int64(3600)},
